@@ -291,6 +291,8 @@ pub struct RunTrace {
     pub steps: usize,
     /// virtual clock when the last *worker* exited
     pub clock_at_workers_done: u128,
+    /// virtual clock when the last non-worker (timer) thread exited, if there is one
+    pub timer_exit_clock: Option<u128>,
     pub log: Vec<(usize, String)>,
 }
 
@@ -317,12 +319,16 @@ pub fn drive_with(s: &Sched, workers: &[usize], all: &[usize], choose: &mut dyn 
     let mut steps = 0usize;
     let mut clock_done = 0u128;
     let mut workers_done = false;
+    let mut timer_exit_clock: Option<u128> = None;
     let end;
     loop {
         let (threads, owner, clock) = s.snapshot();
         if !workers_done && workers.iter().all(|w| threads[*w] == TState::Exited) {
             workers_done = true;
             clock_done = clock;
+        }
+        if timer_exit_clock.is_none() && all.len() > workers.len() && all.iter().filter(|t| !workers.contains(t)).all(|t| threads[*t] == TState::Exited) {
+            timer_exit_clock = Some(clock);
         }
         if all.iter().all(|w| threads[*w] == TState::Exited) {
             end = RunEnd::AllExited;
@@ -386,7 +392,7 @@ pub fn drive_with(s: &Sched, workers: &[usize], all: &[usize], choose: &mut dyn 
         current = Some(t);
         steps += 1;
     }
-    RunTrace { decisions, end, steps, clock_at_workers_done: clock_done, log: s.take_log() }
+    RunTrace { decisions, end, steps, clock_at_workers_done: clock_done, timer_exit_clock, log: s.take_log() }
 }
 
 pub struct Explorer {
